@@ -935,7 +935,7 @@ impl MdkSqliteStorage {
         // This is critical because the groups table has ON DELETE CASCADE to
         // group_state_snapshots - if we delete the group first, the snapshot
         // rows get deleted too!
-        let snapshot_rows: Vec<(String, Vec<u8>, Vec<u8>)> = {
+        let mut snapshot_rows: Vec<(String, Vec<u8>, Vec<u8>)> = {
             let mut stmt = conn
                 .prepare(
                     "SELECT table_name, row_key, row_data FROM group_state_snapshots
@@ -952,6 +952,17 @@ impl MdkSqliteStorage {
             rows.collect::<Result<Vec<_>, _>>()
                 .map_err(|e| Error::Database(e.to_string()))?
         };
+
+        // openmls_own_leaf_nodes is an ordered list (rows are read back by ascending id). The
+        // snapshot keys its rows by the original id as JSON text, which does not sort
+        // numerically as bytes ("10" < "9"), so put them back in the order of those ids.
+        snapshot_rows.sort_by_key(|(table_name, row_key, _)| {
+            if table_name == "openmls_own_leaf_nodes" {
+                serde_json::from_slice::<i64>(row_key).unwrap_or(i64::MAX)
+            } else {
+                i64::MIN
+            }
+        });
 
         // Also read OTHER snapshots for this group (different names) so we can
         // restore them after the CASCADE deletion. This preserves multiple snapshots.
